@@ -47,7 +47,10 @@ PROPS = {
     "C05": tb_prop(["C05."]),
     "C06": tb_prop(["C06."]),
     "C07": tb_prop(["C07."]),
-    "C08": tb_prop(["C08."]),
+    "C08": {**tb_prop(["C08."]), "layers": ["tb", "sm"],
+            "modes": {"quick": tb_modes()["quick"] + [{"mode": "sm", "args": ["-n", 2000]}],
+                      "thorough": tb_modes()["thorough"] + [{"mode": "sm", "args": ["-n", 100000, "-enum", 4, "-enumseats", 3]}],
+                      "search": tb_modes()["search"] + [{"mode": "sm", "args": ["-n", 40000]}]}},
     "C12": tb_prop(["C12."]),
     "C04": {
         "layers": ["sm"],
